@@ -119,7 +119,7 @@ def entries_for(rng, f, n, explicit=4):
     if f in W.RAW_FAMILIES:
         if not n:
             return []
-        kind, start = rng.randint(0, 4), rng.randint(0, 50000)
+        kind, start = rng.randint(0, (W.FS_KINDS if f in W.FS_FAMILIES else 5) - 1), rng.randint(0, 50000)
         # these entries are spelled out in the Coq case: keep the literal below ~25 kB
         size = max(1, len(W.raw_nlri(f, kind, start)))
         return [['rawbulk', f, kind, max(1, min(n, 25000 // size)), start]]
@@ -270,6 +270,15 @@ def gen_cases(rng, tier):
                 cases.append(mk(l, r, ['reach', f, nexthop_for(rng, f), base_attrs(rng), es], ['reach', 'labels']))
             else:
                 cases.append(mk(l, r, ['unreach', f, es], ['unreach', 'labels']))
+
+    # ---- E2. Flowspec rules around the length-prefix switch (one octet below 240, two from 240 on),
+    # complete on every run: family x body size 238..242 x (announce, withdraw)
+    for f in W.FS_FAMILIES:
+        for kind in range(5, W.FS_KINDS):
+            l, r = caps_pair([f, W.IPV4])
+            es = [['rawbulk', f, kind, rng.choice([1, 2, 3]), rng.randint(0, 50000)]]
+            cases.append(mk(l, r, ['reach', f, None, base_attrs(rng), es], ['reach', 'mp', 'fs_len_switch']))
+            cases.append(mk(l, r, ['unreach', f, es], ['unreach', 'mp', 'fs_len_switch']))
 
     # ---- F. two-octet AS sessions with wide AS numbers
     for _ in range(40 if quick else 500):
